@@ -226,7 +226,7 @@ type mgen struct {
 	r *rand.Rand
 }
 
-var mNames = []string{"a", "B", "name", "Item_1", "été", "x9", "if_", "unlessX", "Ж", "\u212aelvin", "\u2c65b", "\u0130x", "\u017ft"}
+var mNames = []string{"first-name", "is-vip", "x-1-y", "a", "B", "name", "Item_1", "été", "x9", "if_", "unlessX", "Ж", "\u212aelvin", "\u2c65b", "\u0130x", "\u017ft"}
 var mTexts = []string{"x", "Hello, ", " and ", "!", "a{b", "c}d", "{ x", "y }", "\n", "q\"r/\\", "'it's'", "# not a tag ^ /", "日本語 ", "}} stray"}
 var mValues = []string{"", "v", "\b", "a\fb", "\t", "/", "\\", "\"", "q\"/\n", "back\\slash\ttab\r\b\f", "<b>&amp;</b>", "Ünï", "{{x}}", " "}
 
